@@ -253,6 +253,55 @@ def run(ctx):
             if tbad <= 3:
                 ctx.fail("oracle", "C13 oracle: " + why, dict(kind="trace", case=c, trace=l[:4000]))
     ctx.k_checks["oracle-ownership-across-drop"] = (tbad == 0, len(tcases))
+    # ownership while the store is ALIVE, whatever has happened to its worker: idle, held with work
+    # pending, or dead after a failed write / a failed unlink (the store object still exists and
+    # can still create chunk files); every second attempt is refused with a lock error, and once
+    # the store is dropped the next one succeeds
+    acases = []
+    for i in range(ctx.scale(24, 120)):
+        R = rnd.choice([2, 3, 4])
+        cfg = "100000 1073741824 %d 1073741824 1 64" % R
+        items = ["A 1 %d x%02x" % (j, j) for j in range(rnd.randint(R, 3 * R))]
+        kind = i % 4
+        if kind == 0:
+            items += ["F 1", "wi"]
+        elif kind == 1:
+            items += ["F 1", "w %d" % rnd.choice([0, 1, 2])]
+        elif kind == 2:
+            items += ["fault write %d" % rnd.choice([0, 0, 1]), "F 1", "wi"]
+        else:
+            items += ["F 1", "wi", "P 1 %d" % (R - 1), "fault unlink 0", "F 1", "wi"]
+        items += ["open2 " + cfg, "A 1 99 x", "open2 " + cfg, "drop", "open " + cfg, "G"]
+        acases.append("TRACE %s | %s" % (cfg, " ; ".join(items)))
+    alogs = p_trace.run_traces(acases, ctx.wd, "alive")
+    abad = 0
+    for c, l in zip(acases, alogs):
+        ev = [e.strip() for e in l.split(" ; ")]
+        why = None
+        if l in ("hang", "harness-panic"):
+            why = "the trace did not complete (%s)" % l
+        att = [e for e in ev if e.startswith("c open2 ") and len(e.split()) > 2 and e.split()[2] in ("opened", "err", "panic")]
+        for e in att:
+            if e == "c open2 opened":
+                why = "a second store obtained the directory while the first one was alive"
+            elif e != "c open2 err WouldBlock":
+                why = "a refused open answered `%s` instead of a lock error" % e
+        if not why and len(att) != 2:
+            why = "open attempts not recorded: %s" % att
+        if not why:
+            d = [i for i, e in enumerate(ev) if e == "c dropped" or e.startswith("c drop")]
+            fin = [e for e in ev[(d[-1] if d else 0):] if e == "c opened" or e.startswith("c openerr") or e == "c panic"]
+            # (after an injected write failure the directory itself may be refused as damaged:
+            # that is C05's subject; here the question is whether the LOCK is obtained)
+            faulty = "fault" in c
+            if not fin or (fin[-1] != "c opened" and not (faulty and fin[-1] == "c openerr InvalidData")) or "c flock lock ok" not in ev[(d[-1] if d else 0):]:
+                why = "the owner has been dropped but the next attempt does not get the directory: %s" % (fin[-1] if fin else "no attempt")
+        ctx.count("alive_%d" % (acases.index(c) % 4))
+        if why:
+            abad += 1
+            if abad <= 3:
+                ctx.fail("oracle", "C13 oracle: " + why, dict(kind="trace", case=c, trace=l[:4000]))
+    ctx.k_checks["oracle-ownership-while-alive"] = (abad == 0, len(acases))
     rep = C.run_model(model_cases, ctx.wd, "lock")
     nb = 0
     for c, m, r in zip(model_cases, metas, rep):
